@@ -25,6 +25,8 @@ GEN_DERIVE = dict(module="Gen_Derive", cfg="Gen_Derive.cfg", cfg_thorough="Gen_D
 
 MC_DECODER = dict(module="MC_Decoder", cfg="MC_Decoder.cfg", cfg_thorough="MC_Decoder_thorough.cfg", workers=8, timeout=2400)
 
+MC_ENCODER = dict(module="MC_Encoder", cfg="MC_Encoder.cfg", cfg_thorough="MC_Encoder_thorough.cfg", workers=6)
+
 PROPS = {
     "C20": dict(level="model_checking", mc=[MC_FORMAT], steps=[dict(kind="custom", fn="feature_builds")],
         rule="one deterministic corpus (the C01 values and the C03 byte strings of every type available in the configuration, fixed seed) through one build "
@@ -41,7 +43,7 @@ PROPS = {
         rule="enum definitions over {index attribute, explicit discriminant, implicit position, skip} with indices in {0,1,2,255,256,300}, enumerated by TLC, "
              "sampled by seed, each invalid one paired with a minimally different valid twin, plus the finite attribute-conflict / union / CompactAs / 256-vs-257 cases; "
              "each program is its own compilation target; distinct by definition"),
-    "C09": dict(level="model_checking", mc=[MC_DECODER], steps=[trace(1, 3)]),
+    "C09": dict(level="model_checking", mc=[MC_DECODER], steps=[trace(1, 3), dict(kind="apalache", module="Ind_Chunk")]),
     "C10": dict(level="fault_enumeration", mc=[MC_LEDGER], steps=[
         dict(kind="gen_vectors", mc=GEN_LEDGER, out="lvec.ndjson"),
         trace(1, 1, tag="faults", vectors="lvec.ndjson"),
@@ -49,7 +51,7 @@ PROPS = {
             "enumerated by TLC from the ledger machine, stretched to sizes 7 and 40; non-trivial = at least one element constructed or a fault injected, "
             "distinct by (shape, size, fault position, kind)"),
     "C06": dict(level="model_checking", mc=[MC_CONTAINERS], steps=[trace(1, 8)]),
-    "C07": dict(level="model_checking", mc=[MC_FORMAT], steps=[trace(1, 4)]),
+    "C07": dict(level="model_checking", mc=[MC_ENCODER, MC_FORMAT], steps=[trace(1, 4)]),
     "C15": dict(level="model_checking", mc=[MC_APPEND], steps=[trace(1, 6)]),
     "C16": dict(level="model_checking", mc=[MC_FORMAT], steps=[trace(1, 10)]),
     "C04": dict(level="model_checking", mc=[MC_COMPACT], steps=[
@@ -65,9 +67,9 @@ PROPS = {
     "C03": dict(level="model_checking", mc=[MC_DECODER], steps=[trace(2, 16)]),
     "C08": dict(level="model_checking", mc=[MC_DECODER], steps=[trace(1, 2)]),
     "C11": dict(level="model_checking", mc=[MC_DECODER], steps=[trace(1, 6)]),
-    "C12": dict(level="model_checking", mc=[MC_DECODER], steps=[trace(1, 4)]),
+    "C12": dict(level="model_checking", mc=[MC_DECODER], steps=[trace(1, 4), dict(kind="apalache", module="Ind_Mem")]),
     "C13": dict(level="model_checking", mc=[MC_FORMAT], steps=[trace(1, 10)]),
     "C14": dict(level="model_checking", mc=[MC_FORMAT], steps=[trace(2, 12)]),
     "C18": dict(level="model_checking", mc=[MC_FORMAT], steps=[trace(2, 12)]),
-    "C19": dict(level="model_checking", mc=[MC_DECODER], steps=[trace(1, 6)]),
+    "C19": dict(level="model_checking", mc=[MC_DECODER], steps=[trace(1, 6), dict(kind="apalache", module="Ind_Count")]),
 }
